@@ -130,6 +130,14 @@ impl<'a> DecryptionKey<'a> {
         DecryptionKeyBuilder::default()
     }
 
+    /// Returns `true`, if both keys have the same [`KeyFormat`]. An absent
+    /// `KEYFORMAT` attribute is the [`KeyFormat::Identity`] format.
+    #[must_use]
+    pub(crate) fn has_same_format(&self, other: &Self) -> bool {
+        self.format.as_ref().unwrap_or(&KeyFormat::Identity)
+            == other.format.as_ref().unwrap_or(&KeyFormat::Identity)
+    }
+
     /// Makes the struct independent of its lifetime, by taking ownership of all
     /// internal [`Cow`]s.
     ///
